@@ -699,3 +699,153 @@ Proof.
       * exfalso. eapply write_pes_data_no_err; eauto.
       * cbn [lo_stop lo_part pa_res]. congruence.
 Qed.
+
+(* ---------------- WriteTables ---------------- *)
+
+Lemma restore_set_tables s a b c d e f : restore_tables s (set_tables s a b c d e f) = s.
+Proof. destruct s; reflexivity. Qed.
+
+Lemma set_tables_twice s a b c d e f a' b' c' d' e' f' :
+  set_tables (set_tables s a b c d e f) a' b' c' d' e' f' = set_tables s a' b' c' d' e' f'.
+Proof. reflexivity. Qed.
+
+(* what a successful WriteTables does *)
+Definition pat_ver (s : mstate) : Z := snd (next_version (ms_pat_version s) (ms_pm_updated s)).
+Definition pmt_ver (s : mstate) : Z := snd (next_version (ms_pmt_version s) (ms_pmt_updated s)).
+Definition tables_state (s : mstate) : mstate :=
+  set_tables s (fst (next_version (ms_pat_version s) (ms_pm_updated s)))
+               (fst (next_version (ms_pmt_version s) (ms_pmt_updated s)))
+               (wrappingCounter_inc_st (ms_pat_cc s)) (wrappingCounter_inc_st (ms_pmt_cc s)) false false.
+
+Definition tables_ok (s s' : mstate) (p : part) : Prop :=
+  exists ppay mpay bpat bpmt,
+    pa_res p = Ok tt /\
+    pa_pkts p = [table_packet C_PIDPAT (wrappingCounter_inc (ms_pat_cc s)) ppay;
+                 table_packet C_pmtStartPID (wrappingCounter_inc (ms_pmt_cc s)) mpay] /\
+    pa_groups p = [[bpat]; [bpmt]] /\
+    pa_n p = blen bpat + blen bpmt /\
+    write_packet (table_packet C_PIDPAT (wrappingCounter_inc (ms_pat_cc s)) ppay) C_MpegTsPacketSize = Ok bpat /\
+    write_packet (table_packet C_pmtStartPID (wrappingCounter_inc (ms_pmt_cc s)) mpay) C_MpegTsPacketSize = Ok bpmt /\
+    write_psi_data (psi_of_section (pat_section (pat_ver s))) = Ok ppay /\
+    write_psi_data (psi_of_section (pmt_section s (pmt_ver s))) = Ok mpay /\
+    stream_pid_in (ms_pcr_pid s) (ms_streams s) = true /\
+    s' = tables_state s.
+
+Lemma write_tables_spec s s' p : write_tables s = (s', p) -> pa_res p <> Panic ->
+  (exists c, pa_res p = Err c /\ s' = s /\ pa_pkts p = [] /\ pa_groups p = [] /\ pa_n p = 0) \/ tables_ok s s' p.
+Proof.
+  unfold write_tables, generate_pat.
+  destruct (next_version (ms_pat_version s) (ms_pm_updated s)) as [patv pver] eqn:Epv.
+  destruct (write_psi_data (psi_of_section (pat_section pver))) as [ppay|c|] eqn:Epsi.
+  2:{ intros H; inversion H; subst; clear H. intros _. left. exists c. rewrite restore_set_tables. repeat split; reflexivity. }
+  2:{ intros H; inversion H; subst; clear H. cbn [pa_res]. congruence. }
+  destruct (write_packet (table_packet C_PIDPAT (wrappingCounter_inc (ms_pat_cc s)) ppay) C_MpegTsPacketSize) as [bpat|c|] eqn:Ewp.
+  2:{ intros H; inversion H; subst; clear H. intros _. left. exists c. rewrite set_tables_twice, restore_set_tables. repeat split; reflexivity. }
+  2:{ intros H; inversion H; subst; clear H. cbn [pa_res]. congruence. }
+  rewrite !set_tables_twice. cbn [ms_pat_cc set_tables].
+  unfold generate_pmt. cbn [ms_pcr_pid ms_streams ms_pmt_version ms_pmt_updated ms_pat_version ms_pat_cc ms_pmt_cc ms_pm_updated set_tables].
+  destruct (stream_pid_in (ms_pcr_pid s) (ms_streams s)) eqn:Epcr; cbn [negb].
+  2:{ intros H; inversion H; subst; clear H. intros _. left. exists E_pcr_pid. rewrite restore_set_tables. repeat split; reflexivity. }
+  destruct (next_version (ms_pmt_version s) (ms_pmt_updated s)) as [pmtv mver] eqn:Emv.
+  change (pmt_section (set_tables s patv (ms_pmt_version s) (wrappingCounter_inc_st (ms_pat_cc s)) (ms_pmt_cc s) false (ms_pmt_updated s)) mver)
+    with (pmt_section s mver).
+  destruct (write_psi_data (psi_of_section (pmt_section s mver))) as [mpay|c|] eqn:Empsi.
+  2:{ intros H; inversion H; subst; clear H. intros _. left. exists c. rewrite !set_tables_twice, restore_set_tables. repeat split; reflexivity. }
+  2:{ intros H; inversion H; subst; clear H. cbn [pa_res]. congruence. }
+  destruct (write_packet (table_packet C_pmtStartPID (wrappingCounter_inc (ms_pmt_cc s)) mpay) C_MpegTsPacketSize) as [bpmt|c|] eqn:Ewm.
+  2:{ intros H; inversion H; subst; clear H. intros _. left. exists c. rewrite !set_tables_twice, restore_set_tables. repeat split; reflexivity. }
+  2:{ intros H; inversion H; subst; clear H. cbn [pa_res]. congruence. }
+  intros H; inversion H; subst; clear H. intros _. right.
+  exists ppay, mpay, bpat, bpmt. unfold pat_ver, pmt_ver, tables_state. rewrite Epv, Emv. cbn [fst snd pa_res pa_pkts pa_groups pa_n].
+  repeat split; try reflexivity; assumption.
+Qed.
+
+(* retransmitTables *)
+Lemma retransmit_spec s force s' p : retransmit_tables s force = (s', p) -> pa_res p <> Panic ->
+  let s1 := set_retransmit s (ms_retransmit s + 1) in
+  let due := negb (negb force && (ms_retransmit s + 1 <? ms_period s)) in
+  (due = false /\ s' = s1 /\ p = mk_part (Ok tt) 0 [] []) \/
+  (due = true /\ exists c, pa_res p = Err c /\ s' = s1 /\ pa_pkts p = [] /\ pa_groups p = [] /\ pa_n p = 0) \/
+  (due = true /\ tables_ok s1 (tables_state s1) p /\ s' = set_retransmit (tables_state s1) 0).
+Proof.
+  unfold retransmit_tables. cbn [ms_retransmit ms_period set_retransmit]. cbn zeta.
+  set (s1 := set_retransmit s (ms_retransmit s + 1)).
+  destruct (negb force && (ms_retransmit s + 1 <? ms_period s)) eqn:Edue; cbn [negb].
+  { intros H; inversion H; subst. intros _. left. repeat split; reflexivity. }
+  destruct (write_tables s1) as [s2 pt] eqn:Ewt. destruct pt as [rt nt gt pkt]. destruct rt as [u|c|].
+  - intros H; inversion H; subst; clear H. intros _. right; right. split; [reflexivity|].
+    destruct (write_tables_spec _ _ _ Ewt ltac:(cbn; congruence)) as [(c & Hc & _)|Hok]; [cbn in Hc; discriminate|].
+    destruct Hok as (ppay & mpay & bpat & bpmt & H1 & H2 & H3 & H4 & H5 & H6 & H7 & H8 & H9 & H10).
+    cbn [pa_res pa_pkts pa_groups pa_n] in *. subst s2. split; [|reflexivity].
+    exists ppay, mpay, bpat, bpmt. cbn [pa_res pa_pkts pa_groups pa_n]. repeat split; assumption.
+  - intros H; inversion H; subst; clear H. intros _. right; left. split; [reflexivity|].
+    destruct (write_tables_spec _ _ _ Ewt ltac:(cbn; congruence)) as [(c' & Hc & Hs & Hp & Hg & Hn)|Hok].
+    + exists c. cbn [pa_res pa_pkts pa_groups pa_n] in *. repeat split; assumption.
+    + destruct Hok as (? & ? & ? & ? & H1 & _). cbn in H1. discriminate.
+  - intros H; inversion H; subst; clear H. cbn [pa_res]. congruence.
+Qed.
+
+Ltac pinj H := apply pair_equal_spec in H; let H1 := fresh in let H2 := fresh in destruct H as [H1 H2]; subst.
+
+(* everything but the contexts *)
+Definition same_but_es (a b : mstate) : Prop :=
+  ms_period a = ms_period b /\ ms_streams a = ms_streams b /\ ms_pcr_pid a = ms_pcr_pid b /\
+  ms_pm_updated a = ms_pm_updated b /\ ms_pmt_updated a = ms_pmt_updated b /\ ms_next_pid a = ms_next_pid b /\
+  ms_pat_version a = ms_pat_version b /\ ms_pmt_version a = ms_pmt_version b /\
+  ms_pat_cc a = ms_pat_cc b /\ ms_pmt_cc a = ms_pmt_cc b /\ ms_retransmit a = ms_retransmit b.
+
+Lemma same_but_es_refl a : same_but_es a a.
+Proof. unfold same_but_es. repeat split. Qed.
+
+Lemma part_app_res a b : pa_res (part_app a b) = pa_res b. Proof. reflexivity. Qed.
+
+(* WriteData *)
+Lemma write_data_spec s d s' p : write_data s d = (s', p) -> pa_res p <> Panic ->
+  af_entry_ok (MuxerData_AdaptationField d) ->
+  (forall ctx, es_find (MuxerData_PID d) (ms_es s) = Some ctx -> cc_wf (ec_cc ctx)) ->
+  let pid := MuxerData_PID d in
+  (es_find pid (ms_es s) = None /\ s' = s /\ p = mk_part (Err E_pid_not_found) 0 [] []) \/
+  (exists ctx sr pt, es_find pid (ms_es s) = Some ctx /\
+     retransmit_tables s (data_forced s d) = (sr, pt) /\ pa_res pt <> Panic /\
+     ((exists c, pa_res pt = Err c /\ s' = sr /\ p = pt) \/
+      (pa_res pt = Ok tt /\ exists k unit_pkts unit_groups unit_n,
+         pa_pkts p = pa_pkts pt ++ unit_pkts /\ pa_groups p = pa_groups pt ++ unit_groups /\ pa_n p = pa_n pt + unit_n /\
+         Forall (fun q => pkt_pid q = pid) unit_pkts /\
+         payload_ccs pid unit_pkts = ccs_from (ec_cc ctx) k /\
+         same_but_es s' sr /\
+         forall q, es_find q (ms_es s') =
+                   if pid =? q then Some (mk_esctx (iter_inc k (ec_cc ctx)) (ec_es ctx)) else es_find q (ms_es sr)))).
+Proof.
+  intros Hwd Hnp Haf Hwfall pid. unfold write_data in Hwd. fold pid in Hwd, Hwfall.
+  destruct (es_find pid (ms_es s)) as [ctx|] eqn:Efind.
+  2:{ left. pinj Hwd. repeat split; reflexivity. }
+  pose proof (Hwfall ctx eq_refl) as Hwf.
+  right.
+  change (af_rai (MuxerData_AdaptationField d) && (pid =? ms_pcr_pid s)) with (data_forced s d) in Hwd.
+  destruct (retransmit_tables s (data_forced s d)) as [sr pt] eqn:Ert.
+  exists ctx, sr, pt. split; [reflexivity|]. split; [reflexivity|].
+  destruct pt as [rt nt gt pkt]. destruct rt as [u|c|].
+  - destruct u.
+    assert (Hpt : pa_res (mk_part (Ok tt) nt gt pkt) <> Panic) by (cbn; congruence). split; [exact Hpt|].
+    right. split; [reflexivity|].
+    destruct (MuxerData_PES d) as [pes|]; [|pinj Hwd; cbn in Hnp; congruence].
+    destruct (PESData_Data pes) as [|b0 data'] eqn:Edata.
+    + pinj Hwd. exists O, [], [], 0. cbn [pa_pkts pa_groups pa_n iter_inc ccs_from].
+      rewrite !app_nil_r, Z.add_0_r. repeat split; try reflexivity; try constructor.
+      intros q. destruct (pid =? q) eqn:E; [|reflexivity]. apply Z.eqb_eq in E. subst q.
+      assert (Hes : ms_es s' = ms_es s).
+      { destruct (retransmit_spec _ _ _ _ Ert Hpt) as [(_ & -> & _)|[(_ & c & _ & -> & _)|(_ & _ & ->)]]; reflexivity. }
+      rewrite Hes, Efind. destruct ctx; reflexivity.
+    + destruct (PESData_Header pes) as [h0|]; [|pinj Hwd; cbn in Hnp; congruence].
+      pinj Hwd.
+      set (r := wd_loop _ _ _ _ _ _ _) in *.
+      rewrite part_app_res in Hnp.
+      destruct (wd_loop_spec _ pid (filled_header h0 (ec_es ctx)) (ec_cc ctx) (MuxerData_AdaptationField d) true (b0 :: data') Hwf Haf Hnp)
+        as (k & Hk1 & Hk2 & Hk3). fold r in Hk1, Hk2, Hk3.
+      exists k, (pa_pkts (lo_part r)), (pa_groups (lo_part r)), (pa_n (lo_part r)).
+      cbn [part_app pa_pkts pa_groups pa_n]. repeat split; try reflexivity; try assumption.
+      intros q. cbn [set_es ms_es]. rewrite es_find_put, Hk2. reflexivity.
+  - assert (Hpt : pa_res (mk_part (Err c) nt gt pkt) <> Panic) by (cbn; congruence). split; [exact Hpt|].
+    left. exists c. pinj Hwd. repeat split; reflexivity.
+  - pinj Hwd. cbn in Hnp. congruence.
+Qed.
